@@ -11,6 +11,15 @@ CHECKS = {
         'note': TB + 'Not decided: limit_denominator optimality, float round-trip; i64 overflow excluded by the quantifier.',
         'technique': 'encapsulation enumeration over HIR+MIR, abstract interpretation (template constraints), operator-impl sibling rule',
     },
+    'C07': {
+        'text': 'Static: every lossy mantissa shift is paired with the lost-bit test that sets APPROX; a flag-taint analysis shows on every return path of '
+                'Dyadic add/mul that the result includes the APPROX bit of both operands; Ord::cmp is decided completely over the finite abstraction '
+                '{neg,zero,pos}^2 x exponent order x mantissa order against the order of the reals; exponent comparisons are dominated by zero tests; '
+                'no full-width u64->i64 mantissa cast on the call path to f64/Complex; Dyadic/Scalar4 encapsulation; operator impls consistent; conj, the '
+                'Z[omega] product index/sign table (by partial evaluation of its constant loops), From<Phase>, sqrt2_pow and both Complex conversions equal their reference tables.',
+        'note': TB + 'Normalised-mantissa representation (top bit set) is assumed by the order abstraction and is itself checked structurally (D4). Not decided: exactness of the 64-bit arithmetic values, 1e-12 accuracy, float round-trip, exact_phase_and_sqrt2_pow.',
+        'technique': 'finite-abstraction evaluation of the comparison, flag-taint dataflow on all paths, pairing rule, cast rule over call-graph closure, table extraction by partial evaluation',
+    },
     'C14': {
         'text': 'Static: the two QASM name tables are mutually inverse for every kind but UnknownGate and use the standard names; the arity table equals '
                 'the reference; the opaque prelude declares every gate name of the property with the arity of num_qubits() and a parameter exactly when '
